@@ -31,6 +31,48 @@ KEY_UNHASHABLE = "path-cache-unhashable-typeerror"
 
 
 # =====================================================================================
+# the module-level tables of cotengra.interface are looked up by the names the translator discovered
+# (run() fills TABLE_NAMES); when the translator refused the source, or a name is missing, the module
+# globals are scanned.  A missing attribute never stops the oracle.
+TABLE_NAMES = {"path": None, "expr": None}
+
+
+def _is_table_name(name):
+    n = name.lower()
+    return "cache" in n or "handler" in n or "preparer" in n
+
+
+def all_tables(I):
+    """every module-level dict of cotengra.interface that is a cache / per-class handler table
+    (NOT the preset registries)"""
+    return {k: v for k, v in vars(I).items() if isinstance(v, dict) and _is_table_name(k)}
+
+
+def clear_tables(I):
+    for v in all_tables(I).values():
+        v.clear()
+
+
+def cache_table(I, kind):
+    """the dict behind array_contract_path (kind='path') / array_contract_expression (kind='expr'), or None"""
+    nm = TABLE_NAMES.get(kind)
+    d = getattr(I, nm, None) if nm else None
+    if isinstance(d, dict):
+        return d
+    cands = {k: v for k, v in vars(I).items() if isinstance(v, dict) and "cache" in k.lower()}
+    pref = [v for k, v in cands.items() if ("path" if kind == "path" else "expr") in k.lower()]
+    if len(pref) == 1:
+        return pref[0]
+    if len(cands) == 1:
+        return next(iter(cands.values()))
+    return None
+
+
+def _len(d):
+    return len(d) if d is not None else -1
+
+
+# =====================================================================================
 # worker: executes one call sequence against the real cotengra (in-process or in a fresh
 # interpreter).  Specs and results are plain Python literals.
 def _resolve(x, spec, ctg, np):
@@ -121,14 +163,14 @@ def exec_sequence(specs, clear=True):
     from cotengra import interface as I
     warnings.simplefilter("ignore")
     if clear:
-        for tb in ("_PATH_CACHE", "_CONTRACT_EXPR_CACHE", "_find_path_handlers", "_find_tree_handlers",
-                   "_HASH_OPTIMIZE_PREPARERS"):
-            getattr(I, tb).clear()
+        clear_tables(I)
     counts = {"_build_expression": 0, "find_path": 0}
     orig = {}
 
     def wrap(name):
-        f = getattr(I, name)
+        f = getattr(I, name, None)
+        if f is None:
+            return
         orig[name] = f
 
         def g(*a, **k):
@@ -219,7 +261,7 @@ def exec_sequence(specs, clear=True):
                 res["exc"] = "%s: %s" % (type(ex).__name__, str(ex)[:200])
             res["nbuild"] = counts["_build_expression"] - c0["_build_expression"]
             res["nfind"] = counts["find_path"] - c0["find_path"]
-            res["nkeys"] = (len(I._CONTRACT_EXPR_CACHE), len(I._PATH_CACHE))
+            res["nkeys"] = (_len(cache_table(I, "expr")), _len(cache_table(I, "path")))
             out.append(res)
     finally:
         for name, f in orig.items():
@@ -906,7 +948,10 @@ class Token:
 def real_trace(I, calls, which, can_hash_types):
     """run the sequence against the real cache with the cached computation replaced by a
     recording stub; -> (obs list, keys, compute args per call, hcls per call)"""
-    table = I._CONTRACT_EXPR_CACHE if which == "expr" else I._PATH_CACHE
+    table = cache_table(I, which)
+    if table is None:
+        raise LookupError("no cache dict found for %s requests in cotengra.interface" % which)
+    clear_tables(I)
     name = "_build_expression" if which == "expr" else "find_path"
     table.clear()
     orig = getattr(I, name)
@@ -953,8 +998,10 @@ def real_trace_mixed(I, kinds_calls, can_hash_types):
     """path and expression requests interleaved against the real caches (both computations stubbed);
     -> per kind: (calls, obs with producer indices local to the kind, keys, compute args, hcls), or a
     string describing an object that crossed from one cache to the other"""
-    I._CONTRACT_EXPR_CACHE.clear()
-    I._PATH_CACHE.clear()
+    tp, te = cache_table(I, "path"), cache_table(I, "expr")
+    if tp is None or te is None:
+        raise LookupError("cache dicts of cotengra.interface not found")
+    clear_tables(I)
     orig = {n: getattr(I, n) for n in ("_build_expression", "find_path")}
     cur = [0]
     log = {}
@@ -991,14 +1038,130 @@ def real_trace_mixed(I, kinds_calls, can_hash_types):
                 break
             d["obs"].append((0 if i in log else 1, d["glob"].index(r.i)))
             d["norm"].append(log.get(i))
-        keys = {"path": list(I._PATH_CACHE.keys()), "expr": list(I._CONTRACT_EXPR_CACHE.keys())}
-        same_dict = I._PATH_CACHE is I._CONTRACT_EXPR_CACHE
+        keys = {"path": list(tp.keys()), "expr": list(te.keys())}
+        same_dict = tp is te
     finally:
         for n, f in orig.items():
             setattr(I, n, f)
-        I._CONTRACT_EXPR_CACHE.clear()
-        I._PATH_CACHE.clear()
+        clear_tables(I)
     return per, keys, crossed, same_dict
+
+
+def correspondence_phase(ctx, I, ctg, info, rng):
+    import builtins
+    can_hash_types = tuple(getattr(builtins, n, None) or getattr(I, n) for n in info["can_hash_classes"])
+    cases = []
+    records = []
+    nseq = ctx.n(220, 2500)
+    for si in range(nseq):
+        which = "expr" if rng.random() < 0.6 else "path"
+        style, calls = gen_sequence(rng, which)
+        try:
+            obs, keys, norm, hcls = real_trace(I, calls, which, can_hash_types)
+        except Exception as ex:
+            ctx.count("corr_skipped_impl_raise:%s" % type(ex).__name__)
+            continue
+        L = Lit()
+        raws = "[%s]" % "; ".join(raw_lit(L, c, h) for c, h in zip(calls, hcls))
+        keyl = "[%s]" % "; ".join(L.pv(k) for k in keys)
+        obsl = "[%s]" % "; ".join("(%d, %d)" % o for o in obs)
+        # the arguments handed to the computation, for the calls that computed
+        normcases = []
+        for i, nr in enumerate(norm):
+            if nr is None:
+                continue
+            a, k = nr
+            if which == "expr":
+                vals = [a[0], a[1], a[2], k.get("optimize")]
+                extra = {kk: vv for kk, vv in k.items() if kk != "optimize"}
+                if extra != calls[i]["kwargs"]:
+                    ctx.fail("array_contract_expression handed kwargs %r to _build_expression, the caller gave %r"
+                             % (extra, calls[i]["kwargs"]), {"calls": repr(calls), "call": i}, found_input=False)
+            else:
+                vals = [a[0], a[1], a[2], a[3]]
+            normcases.append((i, "[%s]" % "; ".join(L.pv(v) for v in vals)))
+        env = L.env()
+        kx = "expr_key_expr" if which == "expr" else "path_key_expr"
+        fb = "expr_typeerror_fallback" if which == "expr" else "path_typeerror_fallback"
+        cases.append(("seq%d" % si,
+                      "observe_raw %s %s %s [%s] %s" % (env, kx, fb, "; ".join(str(i) for i, _ in normcases), raws),
+                      "(Some (%s, %s), [%s])" % (obsl, keyl, "; ".join("Some %s" % lit for _, lit in normcases))))
+        records.append({"which": which, "style": style, "calls": repr(calls), "observed": repr(obs),
+                        "keys": repr(keys), "compute_args": repr(norm)})
+        feats = set()
+        for (o, _), c in zip(obs, calls):
+            feats.add(["miss", "hit", "typeerror"][o])
+            if not c["cache"]:
+                feats.add("cache_off")
+            if c["lists"]:
+                feats.add("lists")
+            if not c["canonicalize"]:
+                feats.add("raw_labels")
+            if c["kwargs"]:
+                feats.add("kwargs")
+            if isinstance(c["optimize"], (tuple, list)):
+                feats.add("explicit_or_edge_path")
+        for f in feats:
+            ctx.count("corr:" + f)
+        ctx.count("corr:style:" + style)
+        ctx.case(("corr", repr(calls)), nontrivial=("hit" in feats and "miss" in feats),
+                 sample={"which": which, "calls": repr(calls)[:600], "observed": repr(obs)} if si < 2 else None)
+    # ---- path and expression requests interleaved: the two caches are separate maps, so the model's
+    # prediction is the two sub-sequences run independently (C13_two_caches_transparent) -------------
+    for si in range(ctx.n(60, 600)):
+        style = rng.choice(STYLES)
+        nets = [gen_net(rng, style) for _ in range(rng.randint(1, 2))]
+        kc = []
+        for _ in range(rng.randint(3, 7)):
+            if kc and rng.random() < 0.55:
+                k0, c0 = rng.choice(kc)
+                kc.append(("expr" if k0 == "path" else "path", dict(c0)))     # the same call through the other function
+            else:
+                c = gen_call(rng, rng.choice(nets), "path")                     # option-free: kwargs = {}
+                c["lists"] = False
+                kc.append((rng.choice(["path", "expr"]), c))
+        try:
+            per, keys, crossed, same_dict = real_trace_mixed(I, kc, can_hash_types)
+        except Exception as ex:
+            ctx.count("corr_skipped_impl_raise:%s" % type(ex).__name__)
+            continue
+        ctx.count("corr:mixed_path_expr")
+        if any(a[0] != b[0] and a[1] == b[1] for a in kc for b in kc):
+            ctx.count("corr:mixed_same_call_through_both_functions")
+        rec0 = {"which": "mixed", "style": style, "calls": repr(kc)}
+        if crossed or same_dict:
+            rec0["correspondence"] = "the path cache and the expression cache are separate dicts"
+            ctx.fail("model and implementation disagree: %s" % (crossed or "the path cache and the expression cache are one dict"),
+                     rec0, found_input=False)
+            continue
+        for kind in ("path", "expr"):
+            d = per[kind]
+            if not d["calls"]:
+                continue
+            L = Lit()
+            raws = "[%s]" % "; ".join(raw_lit(L, c, h) for c, h in zip(d["calls"], d["hcls"]))
+            keyl = "[%s]" % "; ".join(L.pv(k) for k in keys[kind])
+            obsl = "[%s]" % "; ".join("(%d, %d)" % o for o in d["obs"])
+            env = L.env()
+            kx = "expr_key_expr" if kind == "expr" else "path_key_expr"
+            fb = "expr_typeerror_fallback" if kind == "expr" else "path_typeerror_fallback"
+            cases.append(("mixed%d.%s" % (si, kind), "observe_raw %s %s %s [] %s" % (env, kx, fb, raws),
+                          "(Some (%s, %s), [])" % (obsl, keyl)))
+            records.append(dict(rec0, kind=kind, observed=repr(d["obs"]), keys=repr(keys[kind])))
+    ctx.log("correspondence: %d sequences run against the real caches, %d Coq cases" % (nseq, len(cases)))
+    failing = ctx.coq_cases("c13", ["Base", "CacheState", "CacheKey"], cases, chunk=max(8, len(cases) // 16 + 1))
+    ctx.log("correspondence: %d cases evaluated in Coq, %d disagree" % (len(cases), len(failing)))
+    for idx, label, val in failing:
+        rec = dict(records[idx]) if idx < len(records) else {}
+        rec["model_value"] = val
+        rec["label"] = label
+        rec["correspondence"] = ("Model/CacheState.v trace_raw / normalized_fields vs "
+                                 "array_contract_expression / array_contract_path with a recording stub")
+        ctx.fail("model and implementation disagree on the cache behaviour (%s)" % label, rec, found_input=False)
+
+    # ---- 2b. dispatch tables ---------------------------------------------------------
+    dispatch_correspondence(ctx, I, ctg, info, rng)
+
 
 
 # =====================================================================================
@@ -1035,6 +1198,8 @@ def run(ctx):
     # ---- 1. Coq -------------------------------------------------------------------------
     if info is not None:
         coq_ok = standard_proof_steps(ctx)
+    if info is not None:
+        TABLE_NAMES["path"], TABLE_NAMES["expr"] = info["path"]["table"], info["expr"]["table"]
     # what the source looks like, as far as the translator could tell (None = unknown)
     key_hashed = None if info is None else ("'hash'" in repr(info["key_expr"]))
     ctx.meta["key_hashed"] = key_hashed
@@ -1044,120 +1209,14 @@ def run(ctx):
 
     # ---- 2. correspondence ---------------------------------------------------------------
     if coq_ok:
-        import builtins
-        can_hash_types = tuple(getattr(builtins, n, None) or getattr(I, n) for n in info["can_hash_classes"])
-        cases = []
-        records = []
-        nseq = ctx.n(220, 2500)
-        for si in range(nseq):
-            which = "expr" if rng.random() < 0.6 else "path"
-            style, calls = gen_sequence(rng, which)
-            try:
-                obs, keys, norm, hcls = real_trace(I, calls, which, can_hash_types)
-            except Exception as ex:
-                ctx.count("corr_skipped_impl_raise:%s" % type(ex).__name__)
-                continue
-            L = Lit()
-            raws = "[%s]" % "; ".join(raw_lit(L, c, h) for c, h in zip(calls, hcls))
-            keyl = "[%s]" % "; ".join(L.pv(k) for k in keys)
-            obsl = "[%s]" % "; ".join("(%d, %d)" % o for o in obs)
-            # the arguments handed to the computation, for the calls that computed
-            normcases = []
-            for i, nr in enumerate(norm):
-                if nr is None:
-                    continue
-                a, k = nr
-                if which == "expr":
-                    vals = [a[0], a[1], a[2], k.get("optimize")]
-                    extra = {kk: vv for kk, vv in k.items() if kk != "optimize"}
-                    if extra != calls[i]["kwargs"]:
-                        ctx.fail("array_contract_expression handed kwargs %r to _build_expression, the caller gave %r"
-                                 % (extra, calls[i]["kwargs"]), {"calls": repr(calls), "call": i}, found_input=False)
-                else:
-                    vals = [a[0], a[1], a[2], a[3]]
-                normcases.append((i, "[%s]" % "; ".join(L.pv(v) for v in vals)))
-            env = L.env()
-            kx = "expr_key_expr" if which == "expr" else "path_key_expr"
-            fb = "expr_typeerror_fallback" if which == "expr" else "path_typeerror_fallback"
-            cases.append(("seq%d" % si,
-                          "observe_raw %s %s %s [%s] %s" % (env, kx, fb, "; ".join(str(i) for i, _ in normcases), raws),
-                          "(Some (%s, %s), [%s])" % (obsl, keyl, "; ".join("Some %s" % lit for _, lit in normcases))))
-            records.append({"which": which, "style": style, "calls": repr(calls), "observed": repr(obs),
-                            "keys": repr(keys), "compute_args": repr(norm)})
-            feats = set()
-            for (o, _), c in zip(obs, calls):
-                feats.add(["miss", "hit", "typeerror"][o])
-                if not c["cache"]:
-                    feats.add("cache_off")
-                if c["lists"]:
-                    feats.add("lists")
-                if not c["canonicalize"]:
-                    feats.add("raw_labels")
-                if c["kwargs"]:
-                    feats.add("kwargs")
-                if isinstance(c["optimize"], (tuple, list)):
-                    feats.add("explicit_or_edge_path")
-            for f in feats:
-                ctx.count("corr:" + f)
-            ctx.count("corr:style:" + style)
-            ctx.case(("corr", repr(calls)), nontrivial=("hit" in feats and "miss" in feats),
-                     sample={"which": which, "calls": repr(calls)[:600], "observed": repr(obs)} if si < 2 else None)
-        # ---- path and expression requests interleaved: the two caches are separate maps, so the model's
-        # prediction is the two sub-sequences run independently (C13_two_caches_transparent) -------------
-        for si in range(ctx.n(60, 600)):
-            style = rng.choice(STYLES)
-            nets = [gen_net(rng, style) for _ in range(rng.randint(1, 2))]
-            kc = []
-            for _ in range(rng.randint(3, 7)):
-                if kc and rng.random() < 0.55:
-                    k0, c0 = rng.choice(kc)
-                    kc.append(("expr" if k0 == "path" else "path", dict(c0)))     # the same call through the other function
-                else:
-                    c = gen_call(rng, rng.choice(nets), "path")                     # option-free: kwargs = {}
-                    c["lists"] = False
-                    kc.append((rng.choice(["path", "expr"]), c))
-            try:
-                per, keys, crossed, same_dict = real_trace_mixed(I, kc, can_hash_types)
-            except Exception as ex:
-                ctx.count("corr_skipped_impl_raise:%s" % type(ex).__name__)
-                continue
-            ctx.count("corr:mixed_path_expr")
-            if any(a[0] != b[0] and a[1] == b[1] for a in kc for b in kc):
-                ctx.count("corr:mixed_same_call_through_both_functions")
-            rec0 = {"which": "mixed", "style": style, "calls": repr(kc)}
-            if crossed or same_dict:
-                rec0["correspondence"] = "the path cache and the expression cache are separate dicts"
-                ctx.fail("model and implementation disagree: %s" % (crossed or "_PATH_CACHE is _CONTRACT_EXPR_CACHE"),
-                         rec0, found_input=False)
-                continue
-            for kind in ("path", "expr"):
-                d = per[kind]
-                if not d["calls"]:
-                    continue
-                L = Lit()
-                raws = "[%s]" % "; ".join(raw_lit(L, c, h) for c, h in zip(d["calls"], d["hcls"]))
-                keyl = "[%s]" % "; ".join(L.pv(k) for k in keys[kind])
-                obsl = "[%s]" % "; ".join("(%d, %d)" % o for o in d["obs"])
-                env = L.env()
-                kx = "expr_key_expr" if kind == "expr" else "path_key_expr"
-                fb = "expr_typeerror_fallback" if kind == "expr" else "path_typeerror_fallback"
-                cases.append(("mixed%d.%s" % (si, kind), "observe_raw %s %s %s [] %s" % (env, kx, fb, raws),
-                              "(Some (%s, %s), [])" % (obsl, keyl)))
-                records.append(dict(rec0, kind=kind, observed=repr(d["obs"]), keys=repr(keys[kind])))
-        ctx.log("correspondence: %d sequences run against the real caches, %d Coq cases" % (nseq, len(cases)))
-        failing = ctx.coq_cases("c13", ["Base", "CacheState", "CacheKey"], cases, chunk=max(8, len(cases) // 16 + 1))
-        ctx.log("correspondence: %d cases evaluated in Coq, %d disagree" % (len(cases), len(failing)))
-        for idx, label, val in failing:
-            rec = dict(records[idx]) if idx < len(records) else {}
-            rec["model_value"] = val
-            rec["label"] = label
-            rec["correspondence"] = ("Model/CacheState.v trace_raw / normalized_fields vs "
-                                     "array_contract_expression / array_contract_path with a recording stub")
-            ctx.fail("model and implementation disagree on the cache behaviour (%s)" % label, rec, found_input=False)
-
-        # ---- 2b. dispatch tables ---------------------------------------------------------
-        dispatch_correspondence(ctx, I, ctg, info, rng)
-
+        try:
+            correspondence_phase(ctx, I, ctg, info, rng)
+        except Exception:
+            import traceback
+            tb = traceback.format_exc()
+            ctx.log('correspondence phase raised:\n' + tb)
+            ctx.fail('the correspondence could not be run against this source (the oracle still runs)',
+                     {'correspondence': 'harness/props/c13.py correspondence phase', 'traceback': tb}, found_input=False)
     ctx.log("dispatch correspondence done")
     # ---- 3. oracle -----------------------------------------------------------------------
     P = pools()
@@ -1277,7 +1336,10 @@ def run(ctx):
         ctx.case(("sub", pname, repr(specs)[:200]), nontrivial=True)
 
     # ---- 4. known findings: active probes --------------------------------------------------
-    probe_known(ctx, ctg, I, np, key_hashed, info)
+    try:
+        probe_known(ctx, ctg, I, np, key_hashed, info)
+    except Exception as ex:
+        ctx.fail("the known-finding probes raised %r" % (ex,), {"probe": "probe_known"}, found_input=False)
 
     ctx.coverage["rule"] = (
         "correspondence: random sequences (2-7 calls) over 1-2 small networks per sequence, label styles "
@@ -1337,6 +1399,10 @@ def dispatch_correspondence(ctx, I, ctg, info, rng):
                                      ("find_tree", "_find_tree_handlers", "find_tree"),
                                      ("hash_prepare_optimize", "_HASH_OPTIMIZE_PREPARERS", "prepare")):
         chain, default = info[chain_name]
+        if not isinstance(getattr(I, table, None), dict) or not hasattr(I, fname):
+            ctx.fail("dispatch table %s / function %s not found in cotengra.interface" % (table, fname),
+                     {"correspondence": "per-class dispatch"}, found_input=False)
+            continue
         for rep in range(ctx.n(6, 40)):
             objs = mkobjs()
             rng.shuffle(objs)
@@ -1392,17 +1458,16 @@ def probe_known(ctx, ctg, I, np, key_hashed, info):
     x = np.array([1, 2], dtype=np.int64)
     y = np.array([3, 4], dtype=np.int64)
     sd = {-1: 2, -2: 2}
-    for tb in (I._CONTRACT_EXPR_CACHE, I._PATH_CACHE):
-        tb.clear()
+    clear_tables(I)
     e1 = ctg.array_contract_expression(((-1,), (-2,)), (), size_dict=sd, canonicalize=False)
     e2 = ctg.array_contract_expression(((-1,), (-1,)), (), size_dict=sd, canonicalize=False)
     v1, v2 = int(e1(x, y)), int(e2(x, y))
     a = np.array([[1, 2], [3, 4]], dtype=np.int64)
     b = np.array([[1, 1], [0, 2]], dtype=np.int64)
-    I._CONTRACT_EXPR_CACHE.clear()
+    clear_tables(I)
     ctg.array_contract([a, b], ((-1, 1), (1, -2)), (-1, -2), canonicalize=False)
     n2 = ctg.array_contract([a, b], ((-2, 1), (1, -1)), (-1, -2), canonicalize=False)
-    I._CONTRACT_EXPR_CACHE.clear()
+    clear_tables(I)
     ctx.count("probe:collision")
     collided = (e1 is e2) or (v1, v2) != (21, 11) or not np.array_equal(n2, (a @ b).T)
     if collided:
@@ -1424,7 +1489,7 @@ def probe_known(ctx, ctg, I, np, key_hashed, info):
         exc = None
     except TypeError as ex:
         got, exc = None, str(ex)
-    I._PATH_CACHE.clear()
+    clear_tables(I)
     if exc is not None or tuple(map(tuple, got)) != tuple(map(tuple, want)):
         fb = info["path"]["fallback"] if info else None
         ctx.fail("array_contract_path(..., optimize=[[0,1],[0,1]]) raises TypeError(%s) with cache=True and returns "
